@@ -422,7 +422,7 @@ class AbstractActorCriticOnPolicyAlgorithm[PolicyType: AbstractActorCriticPolicy
             ),
             RolloutBuffer(
                 observations=observation,
-                actions=clipped_action,
+                actions=action,
                 rewards=bootstrapped_reward,
                 dones=done,
                 log_probs=log_prob,
